@@ -253,7 +253,7 @@ func (pdb *pgDb) ensureTable(ctx context.Context) error {
 	}
 	tx, err := pdb.conn.BeginTx(ctx, defaultTxOptions)
 	if err != nil {
-		tx.Rollback(ctx)
+		// there is no transaction to roll back
 		return err
 	}
 	query := fmt.Sprintf(`CREATE TABLE IF NOT EXISTS %s.kv_vise (
